@@ -408,3 +408,105 @@ Theorem C12_source_get_placement_resolved n (s e : gline) (ls : list Py.val) :
     (fun _ => False).
 Proof. exact (GP.gen_get_placement n s e ls true). Qed.
 Print Assumptions C12_source_get_placement_resolved.
+
+(* ---- flex_layout step 6 "resolve the flexible lengths" (css-flexbox 9.7) of weasyprint/layout/flex.py
+   REGENERATED from the source on every run (gen/GenFlexResolve.v, interpreter base/Py.v) computes the model
+   C12Flex on which the flex theorems above rest.  The body of `for line in flex_lines:` up to 9.7.6 is cut into
+   consecutive slices: 9.7.1 (grow or shrink), 9.7.3 (freeze the inflexible items), 9.7.4 (initial free space) and
+   the body of `while not all(frozen)`: 9.7.5.b (remaining free space), 9.7.5.c (distribution), 9.7.5.d (min / max
+   clamping, main = 'width' and main = 'height'), 9.7.5.e (freezing).  Each theorem is for EVERY line: any number
+   of items (F.cst: an attribute bag with any further attributes, F.vline: the list of the pairs (index, child)),
+   any values of the slice's local variables before it runs.  F.rd0 / F.rd / F.rda write the loop state of an item
+   (frozen, target_main_size, flex_factor, adjustment) into its attributes; FM.fst_of reads an item as the
+   model's state (wide: min/max_width or min/max_height).  The run ends normally (no exception) and the values it
+   leaves are the model's: equal, or == where the source adds in another order.  Loops that store attributes of
+   the items are printed by the translator's rule rebuild_for (tools/py2coq.py).  Outside: a max size of inf
+   (no max-width) in 9.7.5.d, the `while` test itself and 9.7.6. *)
+Require WV.gen.GenFlexResolve WV.proofs.C12_gen_flex_base WV.proofs.C12_gen_flex_run WV.proofs.C12_gen_flex.
+Module F := WV.proofs.C12_gen_flex_base.
+Module FR := WV.proofs.C12_gen_flex_run.
+Module FM := WV.proofs.C12_gen_flex.
+
+(* 9.7.1: flex_factor_type is 'grow' exactly when the model chooses Grow (hypothetical sizes as step 3 computes
+   them: FM.hyp_ok) *)
+Theorem C12_source_flex_mode O (HO : Py.ops_ok O) wide (l : list F.cst) (gap avail : Q) hms fft :
+  Forall (FM.hyp_ok wide) l ->
+  Py.run O GenFlexResolve.flex_mode_body (FR.Emode (F.vline l) (Py.VNum gap) (Py.VNum avail) hms fft)
+    (FR.ends (fun rho => exists g, Py.lookup "flex_factor_type" rho = Py.VStr (FR.mode_name g) /\
+                                   FM.md_of g = C12Flex.choose_mode (map (FM.item_of wide) l) gap avail)) (fun _ => False).
+Proof. exact (FM.gen_flex_mode O HO wide l gap avail hms fft). Qed.
+Print Assumptions C12_source_flex_mode.
+
+(* 9.7.3: the line after the loop holds the model's C12Flex.init_item of every item *)
+Theorem C12_source_flex_inflexible O (HO : Py.ops_ok O) wide grow (l : list F.cst) new item idx child fc :
+  Forall (FM.hyp_ok wide) l ->
+  Py.run O GenFlexResolve.flex_inflexible_body (FR.Einfl (F.vline l) grow new item idx child fc)
+    (FR.ends (fun rho => exists l', Py.lookup "line" rho = F.vline (map F.rd0 l') /\
+                Forall2 FM.feq (map (FM.fst_of wide) l') (map (C12Flex.init_item (FM.md_of grow)) (map (FM.item_of wide) l))))
+    (fun _ => False).
+Proof. exact (FM.gen_flex_inflexible O HO wide grow l new item idx child fc). Qed.
+Print Assumptions C12_source_flex_inflexible.
+
+(* 9.7.4: initial_free_space is the model's C12Flex.free_space *)
+Theorem C12_source_flex_initial_free_space O (HO : Py.ops_ok O) wide gap avail (l : list F.rst) ifs item i item1 idx child :
+  Py.run O GenFlexResolve.flex_initial_free_space_body
+    (FR.Efs (F.vline (map F.rd0 l)) (Py.VNum gap) (Py.VNum avail) ifs item i item1 idx child)
+    (FR.ends (fun rho => exists q, Py.lookup "initial_free_space" rho = Py.VNum q /\
+                                   q == C12Flex.free_space avail gap (map (FM.fst_of wide) l))) (fun _ => False).
+Proof. exact (FM.gen_flex_initial_free_space O HO wide gap avail l ifs item i item1 idx child). Qed.
+Print Assumptions C12_source_flex_initial_free_space.
+
+(* 9.7.5.b: remaining_free_space is the model's C12Flex.pass_rem (flex factors as 9.7.3 set them: FM.factor_ok; `inf` is
+   not a number of the embedding: any string; `sys` is not read) *)
+Theorem C12_source_flex_remaining O (HO : Py.ops_ok O) wide grow gap avail init0 infs sys (l : list F.rst)
+        ufs rem item i item1 idx child scaled :
+  Forall (FM.factor_ok wide grow) l ->
+  Py.run O GenFlexResolve.flex_remaining_body
+    (FR.Erem (F.vline (map F.rd0 l)) (Py.VNum gap) (Py.VNum avail) (Py.VNum init0) (Py.VStr infs) sys ufs rem
+             item i item1 idx child scaled)
+    (FR.ends (fun rho => exists q, Py.lookup "remaining_free_space" rho = Py.VNum q /\
+                                   q == C12Flex.pass_rem (FM.md_of grow) avail gap init0 (map (FM.fst_of wide) l) /\
+                                   Py.lookup "initial_free_space" rho = Py.VNum init0)) (fun _ => False).
+Proof. exact (FM.gen_flex_remaining O HO wide grow gap avail init0 infs sys l ufs rem item i item1 idx child scaled). Qed.
+Print Assumptions C12_source_flex_remaining.
+
+(* 9.7.5.c: the line after the distribution is the model's C12Flex.distribute (whenever the model does not divide by
+   zero, the source does not either) *)
+Theorem C12_source_flex_distribute O (HO : Py.ops_ok O) wide (l : list F.rst) rem grow new item idx child ss gs ratio :
+  (grow = true -> ~ rem == 0 -> ~ C12Flex.gsum (map (FM.fst_of wide) l) == 0) ->
+  Py.run O GenFlexResolve.flex_distribute_body
+    (FR.Ed (F.vline (map F.rd0 l)) (Py.VNum rem) grow new item idx child ss gs ratio)
+    (FR.ends (fun rho => exists l2 l', Py.lookup "line" rho = F.vline (map F.rd l2) /\
+                           C12Flex.distribute (FM.md_of grow) rem (map (FM.fst_of wide) l) = Some l' /\
+                           Forall2 FM.feq (map (FM.fst_of wide) l2) l')) (fun _ => False).
+Proof. exact (FM.gen_flex_distribute O HO wide l rem grow new item idx child ss gs ratio). Qed.
+Print Assumptions C12_source_flex_distribute.
+
+(* ... and where the model's distribute is None (its DivZero outcome) the source raises ZeroDivisionError, when
+   there is an unfrozen item (as there is inside the `while not all(frozen)` loop) *)
+Theorem C12_source_flex_distribute_divzero O (HO : Py.ops_ok O) wide (l : list F.rst) rem new item idx child ss gs ratio :
+  C12Flex.distribute Grow rem (map (FM.fst_of wide) l) = None ->
+  existsb (fun r => negb (F.r_b r)) l = true ->
+  Py.run O GenFlexResolve.flex_distribute_body
+    (FR.Ed (F.vline (map F.rd0 l)) (Py.VNum rem) true new item idx child ss gs ratio)
+    (fun _ _ => False) (fun m => m = "ZeroDivisionError"%string).
+Proof. exact (FM.gen_flex_distribute_divzero O HO wide l rem new item idx child ss gs ratio). Qed.
+Print Assumptions C12_source_flex_distribute_divzero.
+
+(* 9.7.5.d: targets and adjustments after the clamping are the model's fix_viol, exactly (FR.clamp_body true /
+   false: the slice specialised to main = 'width' / 'height') *)
+Theorem C12_source_flex_clamp O (HO : Py.ops_ok O) wide (l : list F.rst) new item idx child mn mx cl :
+  Py.run O (FR.clamp_body wide) (FR.Ecl (F.vline (map F.rd l)) new item idx child mn mx cl)
+    (FR.ends (fun rho => exists l2, Py.lookup "line" rho = F.vline (map F.rda l2) /\
+                map (fun r => (FM.fst_of wide r, F.r_a r)) l2 = map C12Flex.fix_viol (map (FM.fst_of wide) l))) (fun _ => False).
+Proof. exact (FM.gen_flex_clamp O HO wide l new item idx child mn mx cl). Qed.
+Print Assumptions C12_source_flex_clamp.
+
+(* 9.7.5.e: the frozen flags after the pass are the model's C12Flex.freeze with the total of the adjustments *)
+Theorem C12_source_flex_freeze O (HO : Py.ops_ok O) wide (l : list F.rst) adjs new item idx child :
+  Py.run O GenFlexResolve.flex_freeze_body (FR.Efr (F.vline (map F.rda l)) adjs new item idx child)
+    (FR.ends (fun rho => exists l2, Py.lookup "line" rho = F.vline (map F.rda l2) /\
+                let p := map (fun r => (FM.fst_of wide r, F.r_a r)) l in
+                map (FM.fst_of wide) l2 = map (C12Flex.freeze (C12Flex.sumQ snd p)) p)) (fun _ => False).
+Proof. exact (FM.gen_flex_freeze O HO wide l adjs new item idx child). Qed.
+Print Assumptions C12_source_flex_freeze.
